@@ -52,23 +52,27 @@ JudgeDgram(e) ==
       c == Classify(e.b)
       n == Len(e.delivered)
   IN IF e.handed # listening
-     THEN [why |-> IF e.handed THEN <<"C17:listens-while-it-should-not">> ELSE <<"C17:does-not-listen-while-running">>, tag |-> "dgram-listening-mismatch"]
+     THEN [why |-> IF e.handed THEN <<"C17:listens-while-it-should-not">>
+                   ELSE <<"C17:does-not-listen-while-running", "C07:later-deliveries-stopped">>, tag |-> "dgram-listening-mismatch"]
      ELSE IF ~e.handed
      THEN [why |-> Cl(n = 0, "C17:callback-while-not-listening"), tag |-> "dgram-nobody-listens"]
      ELSE CASE c.cls = "foreign" ->
-                 [why |-> Cl(n = 0, "C06:foreign-datagram-delivered") \o Cl(e.warns = 0 /\ e.logs = 0, "C06:foreign-datagram-not-silent")
-                          \o Cl(e.excs = <<>>, "C06:foreign-datagram-raised"),
+                 [why |-> (IF n = 0 THEN <<>> ELSE <<"C06:foreign-datagram-delivered", "C07:callback-for-a-datagram-that-is-no-broadcast">>)
+                          \o (IF e.burst THEN <<>> ELSE Cl(e.warns = 0 /\ e.logs = 0, "C06:foreign-datagram-not-silent")
+                                                      \o Cl(e.excs = <<>>, "C06:foreign-datagram-raised")),
                   tag |-> IF Len(e.b) \in {159, 165, 168} THEN "dgram-foreign-right-length" ELSE IF Len(e.b) >= 2 /\ SubSeq(e.b, 1, 2) = <<254, 240>> THEN "dgram-foreign-right-magic" ELSE "dgram-foreign"]
             [] c.cls = "unknown" ->
-                 [why |-> Cl(n = 0, "C06:unknown-model-delivered") \o Cl(e.warns + e.logs >= 1, "C06:unknown-model-must-warn")
-                          \o Cl(e.excs = <<>>, "C06:unknown-model-raised"),
+                 [why |-> (IF n = 0 THEN <<>> ELSE <<"C06:unknown-model-delivered", "C07:callback-for-a-datagram-that-is-no-broadcast">>)
+                          \o (IF e.burst THEN <<>> ELSE Cl(e.warns + e.logs >= 1, "C06:unknown-model-must-warn")
+                                                      \o Cl(e.excs = <<>>, "C06:unknown-model-raised")),
                   tag |-> "dgram-unknown-model"]
             [] c.cls = "valid" ->
-                 [why |-> Cl(n = 1, "C07:exactly-one-callback-per-valid-broadcast")
+                 [why |-> Cl(n = 1 \/ (e.cut /\ n = 0), "C07:exactly-one-callback-per-valid-broadcast")
                           \o (IF n >= 1 THEN FieldClauses(c.fam, e.b, e.delivered[1]) ELSE <<>>)
-                          \o Cl(OnlyCallbackExc(e), "C07:valid-broadcast-raised")
-                          \o Cl(e.warns = 0, "C06:valid-broadcast-warned"),
-                  tag |-> "dgram-valid-" \o c.fam \o (IF e.cbraise THEN "-callback-raises" ELSE "")]
+                          \o (IF e.burst THEN <<>> ELSE Cl(OnlyCallbackExc(e), "C07:valid-broadcast-raised")
+                                                      \o Cl(e.warns = 0, "C06:valid-broadcast-warned")),
+                  tag |-> "dgram-valid-" \o c.fam \o (IF e.cbraise THEN "-callback-raises" ELSE "") \o (IF e.burst THEN "-in-burst" ELSE "")
+                          \o (IF e.cut THEN "-cut-by-stop" ELSE "")]
             [] OTHER -> [why |-> <<>>, tag |-> "dgram-gate-pass-other-open"]
 
 SetOf(q) == SeqToSet(q)
@@ -93,7 +97,11 @@ Step(e) ==
     [] e.ev = "Free" -> [why |-> <<>>, tag |-> "free", B |-> [B EXCEPT !.occupied = @ \ {e.p}], known |-> known]
     [] e.ev = "Obs" -> JudgeObs(e) @@ [B |-> B, known |-> known]
     [] e.ev = "Dgram" -> JudgeDgram(e) @@ [B |-> B, known |-> known]
-    [] e.ev = "Stray" -> [why |-> <<"C07:callback-outside-datagram-processing">>, tag |-> "stray", B |-> B, known |-> known]
+    [] e.ev = "Stray" -> [why |-> <<"C07:callback-outside-datagram-processing">>
+                                  \o (IF B.running THEN <<>> ELSE <<"C17:callback-after-stop">>), tag |-> "stray", B |-> B, known |-> known]
+    [] e.ev = "Order" -> \* tags of the deliveries of one burst on one port, in the order the callback saw them
+         [why |-> Cl(\A k \in 1..(Len(e.seqs) - 1) : e.seqs[k] < e.seqs[k + 1], "C07:arrival-order-per-port"),
+          tag |-> "order", B |-> B, known |-> known]
     [] OTHER -> [why |-> <<"unknown-event">>, tag |-> "unknown", B |-> B, known |-> known]
 
 Init == i = 1 /\ bad = <<>> /\ dropped = 0 /\ tags = <<>> /\ B = NewBridge(<<>>) /\ known = NoKnown /\ tid = -1
